@@ -589,9 +589,24 @@ void _mi_error_message(int err, const char* fmt, ...) {
 #include <string.h> // strstr
 
 
+// Is `s` equal to one of the words in the `;` separated list `words`?
+// (note: `strstr(words,s)` would also accept parts of words like "N", "RUE" or "E;Y")
+static bool mi_option_is_word(const char* words, const char* s) {
+  const size_t len = _mi_strlen(s);
+  if (len == 0) return false;
+  const char* p = words;
+  while (*p != 0) {
+    const char* q = p;
+    while (*q != 0 && *q != ';') { q++; }
+    if ((size_t)(q - p) == len && _mi_strnicmp(p, s, len) == 0) return true;
+    p = (*q == ';' ? q + 1 : q);
+  }
+  return false;
+}
+
 static void mi_option_init(mi_option_desc_t* desc) {
   // Read option value from the environment
-  char s[64 + 1];
+  char s[64 + 2];    // one more than `buf` holds so that a value that is too long is noticed
   char buf[64+1];
   _mi_strlcpy(buf, "mimalloc_", sizeof(buf));
   _mi_strlcat(buf, desc->name, sizeof(buf));
@@ -606,22 +621,25 @@ static void mi_option_init(mi_option_desc_t* desc) {
   }
 
   if (found) {
-    size_t len = _mi_strnlen(s, sizeof(buf) - 1);
+    size_t len = _mi_strnlen(s, sizeof(s) - 1);
+    const bool too_long = (len > sizeof(buf) - 1);   // not a valid value (and do not parse just its first part)
+    if (too_long) { len = sizeof(buf) - 1; }
     for (size_t i = 0; i < len; i++) {
       buf[i] = _mi_toupper(s[i]);
     }
     buf[len] = 0;
-    if (buf[0] == 0 || strstr("1;TRUE;YES;ON", buf) != NULL) {
+    if (buf[0] == 0 || mi_option_is_word("1;TRUE;YES;ON", buf)) {
       desc->value = 1;
       desc->init = INITIALIZED;
     }
-    else if (strstr("0;FALSE;NO;OFF", buf) != NULL) {
+    else if (mi_option_is_word("0;FALSE;NO;OFF", buf)) {
       desc->value = 0;
       desc->init = INITIALIZED;
     }
     else {
       char* end = buf;
       long value = strtol(buf, &end, 10);
+      const bool has_digits = (end != buf);   // a suffix alone (like "KiB") is not a value
       if (mi_option_has_size_in_kib(desc->option)) {
         // this option is interpreted in KiB to prevent overflow of `long` for large allocations
         // (long is 32-bit on 64-bit windows, which allows for 4TiB max.)
@@ -637,7 +655,7 @@ static void mi_option_init(mi_option_desc_t* desc) {
         if (overflow || size > MI_MAX_ALLOC_SIZE) { size = (MI_MAX_ALLOC_SIZE / MI_KiB); }
         value = (size > LONG_MAX ? LONG_MAX : (long)size);
       }
-      if (*end == 0) {
+      if (*end == 0 && has_digits && !too_long) {
         mi_option_set(desc->option, value);
       }
       else {
